@@ -256,38 +256,42 @@ def run(chk):
             res[flag] = tags
         return res
 
-    raw_stmts = [it.node if isinstance(it, Cond) else it for it in items]
-    t = distinct_tags(pol, raw_stmts, pcfg.subject, None)
-    # modern branch: pl.union(.., distinct=True) / pl.union(..) ; fallback: concat().unique() / concat()
-    good_false = ("kw", "distinct", True) not in t[False] and ("call", "unique") not in t[False] and (("call", "union") in t[False] or ("call", "concat") in t[False])
-    chk.ob("R2", pol, pcfg.func, f"polars distinct=True -> {sorted(x for x in t[True] if x[0]=='kw' or x[1] in ('unique','pl.union','pl.concat'))}",
-           ("kw", "distinct", True) in t[True] and ("call", "unique") in t[True],
-           "with distinct=True Polars does not deduplicate (pl.union(distinct=True) and the concat().unique() fallback)")  # fmt: skip
-    chk.ob("R2", pol, pcfg.func, "polars distinct=False -> plain union / concat", good_false,
-           "with distinct=False Polars removes duplicates or does not stack the frames")  # fmt: skip
-    raw_s = [it.node if isinstance(it, Cond) else it for it in items_s]
-    ts = distinct_tags(sql, raw_s, scfg.subject, None)
-    chk.ob("R2", sql, scfg.func, "sql distinct=True -> sqa.union", ("call", "union") in ts[True] and ("call", "union_all") not in ts[True],
-           "with distinct=True SQL does not use UNION")  # fmt: skip
-    chk.ob("R2", sql, scfg.func, "sql distinct=False -> sqa.union_all", ("call", "union_all") in ts[False] and ("call", "union") not in ts[False],
-           "with distinct=False SQL does not use UNION ALL")  # fmt: skip
-    # operand order
-    # operand order from the evaluation (whatever form the call takes): positional operands of union / union_all
-    un_pos = set()
-    for flag in (True, False):
-        ev = Evaluator({f"{scfg.subject}.distinct": flag})
-        ev.skip_loops = True
-        ev.lenient = True
-        try:
-            for _r, env, _d in ev.run_block(raw_s):
-                for v in env.values():
-                    for t in all_tags(v):
-                        if t[0] == "callpos" and t[1].split(".")[-1] in ("union", "union_all"):
-                            un_pos.add(t[2])
-        except Unsupported:
-            pass
-    chk.ob("R2", sql, scfg.func, "sql union(left_sel, right_sel)", bool(un_pos) and all(len(p_) == 2 and "right" not in p_[0] and "right" in p_[1] for p_ in un_pos),
-           "the SQL union does not combine exactly the left and the right select")  # fmt: skip
+    # (the distinct flag on both back ends is decided by the interpreted Union branches R1p / R1s - union vs union_all, distinct=True /
+    # .unique() on both Polars code paths -; the partial evaluation below is the fallback)
+    if not pol_union_decided:
+        raw_stmts = [it.node if isinstance(it, Cond) else it for it in items]
+        t = distinct_tags(pol, raw_stmts, pcfg.subject, None)
+        # modern branch: pl.union(.., distinct=True) / pl.union(..) ; fallback: concat().unique() / concat()
+        good_false = ("kw", "distinct", True) not in t[False] and ("call", "unique") not in t[False] and (("call", "union") in t[False] or ("call", "concat") in t[False])
+        chk.ob("R2", pol, pcfg.func, f"polars distinct=True -> {sorted(x for x in t[True] if x[0]=='kw' or x[1] in ('unique','pl.union','pl.concat'))}",
+               ("kw", "distinct", True) in t[True] and ("call", "unique") in t[True],
+               "with distinct=True Polars does not deduplicate (pl.union(distinct=True) and the concat().unique() fallback)")  # fmt: skip
+        chk.ob("R2", pol, pcfg.func, "polars distinct=False -> plain union / concat", good_false,
+               "with distinct=False Polars removes duplicates or does not stack the frames")  # fmt: skip
+    if not sql_union_decided:
+        raw_s = [it.node if isinstance(it, Cond) else it for it in items_s]
+        ts = distinct_tags(sql, raw_s, scfg.subject, None)
+        chk.ob("R2", sql, scfg.func, "sql distinct=True -> sqa.union", ("call", "union") in ts[True] and ("call", "union_all") not in ts[True],
+               "with distinct=True SQL does not use UNION")  # fmt: skip
+        chk.ob("R2", sql, scfg.func, "sql distinct=False -> sqa.union_all", ("call", "union_all") in ts[False] and ("call", "union") not in ts[False],
+               "with distinct=False SQL does not use UNION ALL")  # fmt: skip
+        # operand order
+        # operand order from the evaluation (whatever form the call takes): positional operands of union / union_all
+        un_pos = set()
+        for flag in (True, False):
+            ev = Evaluator({f"{scfg.subject}.distinct": flag})
+            ev.skip_loops = True
+            ev.lenient = True
+            try:
+                for _r, env, _d in ev.run_block(raw_s):
+                    for v in env.values():
+                        for t in all_tags(v):
+                            if t[0] == "callpos" and t[1].split(".")[-1] in ("union", "union_all"):
+                                un_pos.add(t[2])
+            except Unsupported:
+                pass
+        chk.ob("R2", sql, scfg.func, "sql union(left_sel, right_sel)", bool(un_pos) and all(len(p_) == 2 and "right" not in p_[0] and "right" in p_[1] for p_ in un_pos),
+               "the SQL union does not combine exactly the left and the right select")  # fmt: skip
     # the verb hands the flag through
     vb = repo.mod("pipe.verbs")
     ui = vb.func("_union_impl")
